@@ -309,8 +309,9 @@ def build_blob(ops, fat0, lim=12):
 
 
 def boundary_pixels(m):
-    """mask pixels with a 4-neighbour *inside the image* that is background"""
-    p = np.pad(m, 1, constant_values=True)
+    """mask pixels with a 4-neighbour that is background (everything outside
+    the image counts as background: contours are closed along the border)"""
+    p = np.pad(m, 1, constant_values=False)
     allin = p[:-2, 1:-1] & p[2:, 1:-1] & p[1:-1, :-2] & p[1:-1, 2:]
     return m & ~allin
 
@@ -636,7 +637,7 @@ def check_contour_trace(rec, M, cont, interior, tag):
     rec.check((step == 1).all(), f"contour/steps-8-adjacent/{tag}",
               lambda: f"consecutive contour points not 8-adjacent/duplicated: "
                       f"{cont.tolist()}")
-    if interior:
+    if True:   # border-touching masks included (contours close along the border)
         if len(cont) > 2:
             last = np.abs(cont[0] - cont[-1]).max()
             rec.check(last == 1, f"contour/closed/{tag}",
